@@ -144,6 +144,15 @@ pub(crate) unsafe fn client_channel_create_tls(
     })))
 }
 
+// an invalid argument is reported to the completion callback as well as to the caller,
+// so that the callback fires exactly once whether or not the call itself fails
+fn bad_argument<T, E>(result: Result<T, E>, fail: impl FnOnce()) -> Result<T, E> {
+    if result.is_err() {
+        fail();
+    }
+    result
+}
+
 pub(crate) unsafe fn client_channel_destroy(channel: *mut crate::ClientChannel) {
     if !channel.is_null() {
         drop(Box::from_raw(channel));
@@ -157,7 +166,9 @@ pub(crate) unsafe fn client_channel_read_coils(
     callback: crate::ffi::BitReadCallback,
 ) -> Result<(), ffi::ParamError> {
     let channel = channel.as_mut().ok_or(ffi::ParamError::NullParameter)?;
-    let range = AddressRange::try_from(range.start, range.count)?;
+    let range = bad_argument(AddressRange::try_from(range.start, range.count), || {
+        callback.on_failure(ffi::RequestError::BadArgument)
+    })?;
     let callback = sfio_promise::wrap(callback);
     channel
         .inner
@@ -172,7 +183,9 @@ pub(crate) unsafe fn client_channel_read_discrete_inputs(
     callback: crate::ffi::BitReadCallback,
 ) -> Result<(), ffi::ParamError> {
     let channel = channel.as_mut().ok_or(ffi::ParamError::NullParameter)?;
-    let range = AddressRange::try_from(range.start, range.count)?;
+    let range = bad_argument(AddressRange::try_from(range.start, range.count), || {
+        callback.on_failure(ffi::RequestError::BadArgument)
+    })?;
     let callback = sfio_promise::wrap(callback);
     channel
         .inner
@@ -187,7 +200,9 @@ pub(crate) unsafe fn client_channel_read_holding_registers(
     callback: crate::ffi::RegisterReadCallback,
 ) -> Result<(), ffi::ParamError> {
     let channel = channel.as_mut().ok_or(ffi::ParamError::NullParameter)?;
-    let range = AddressRange::try_from(range.start, range.count)?;
+    let range = bad_argument(AddressRange::try_from(range.start, range.count), || {
+        callback.on_failure(ffi::RequestError::BadArgument)
+    })?;
     let callback = sfio_promise::wrap(callback);
     channel
         .inner
@@ -202,7 +217,9 @@ pub(crate) unsafe fn client_channel_read_input_registers(
     callback: crate::ffi::RegisterReadCallback,
 ) -> Result<(), ffi::ParamError> {
     let channel = channel.as_mut().ok_or(ffi::ParamError::NullParameter)?;
-    let range = AddressRange::try_from(range.start, range.count)?;
+    let range = bad_argument(AddressRange::try_from(range.start, range.count), || {
+        callback.on_failure(ffi::RequestError::BadArgument)
+    })?;
     let callback = sfio_promise::wrap(callback);
     channel
         .inner
@@ -246,8 +263,12 @@ pub(crate) unsafe fn client_channel_write_multiple_coils(
     callback: crate::ffi::WriteCallback,
 ) -> Result<(), ffi::ParamError> {
     let channel = channel.as_mut().ok_or(ffi::ParamError::NullParameter)?;
-    let items = items.as_ref().ok_or(ffi::ParamError::NullParameter)?;
-    let args = WriteMultiple::from(start, items.inner.clone())?;
+    let items = bad_argument(items.as_ref().ok_or(ffi::ParamError::NullParameter), || {
+        callback.on_failure(ffi::RequestError::BadArgument)
+    })?;
+    let args = bad_argument(WriteMultiple::from(start, items.inner.clone()), || {
+        callback.on_failure(ffi::RequestError::BadArgument)
+    })?;
     let callback = sfio_promise::wrap(callback);
     channel
         .inner
@@ -263,8 +284,12 @@ pub(crate) unsafe fn client_channel_write_multiple_registers(
     callback: crate::ffi::WriteCallback,
 ) -> Result<(), ffi::ParamError> {
     let channel = channel.as_mut().ok_or(ffi::ParamError::NullParameter)?;
-    let items = items.as_ref().ok_or(ffi::ParamError::NullParameter)?;
-    let args = WriteMultiple::from(start, items.inner.clone())?;
+    let items = bad_argument(items.as_ref().ok_or(ffi::ParamError::NullParameter), || {
+        callback.on_failure(ffi::RequestError::BadArgument)
+    })?;
+    let args = bad_argument(WriteMultiple::from(start, items.inner.clone()), || {
+        callback.on_failure(ffi::RequestError::BadArgument)
+    })?;
     let callback = sfio_promise::wrap(callback);
     channel
         .inner
